@@ -102,6 +102,24 @@ func hasWildcard(topic string) bool {
 	return false
 }
 
+// Check whether the topic is a valid MQTT topic filter, i.e. if wildcards are
+// used according to MQTT specification v. 3.1.1, chapter 4.7.1.
+func isValidTopicFilter(topic string) bool {
+	if topic == "" {
+		return false
+	}
+	levels := strings.Split(topic, "/")
+	for i, level := range levels {
+		if strings.Contains(level, "#") && (level != "#" || i != len(levels)-1) {
+			return false
+		}
+		if strings.Contains(level, "+") && level != "+" {
+			return false
+		}
+	}
+	return true
+}
+
 type handlerConfig struct {
 	MqttBrokerAddress     *net.TCPAddr
 	MqttConnectionTimeout time.Duration
@@ -270,6 +288,13 @@ func (h *handler1) handleClientPublish(ctx context.Context, snPublish *snPkts1.P
 		topic = snPkts.DecodeShortTopic(snPublish.TopicID)
 	default:
 		return fmt.Errorf("invalid topic ID type %d", snPublish.TopicIDType)
+	}
+	// The packet must be translatable to a valid MQTT PUBLISH.
+	if topic == "" || hasWildcard(topic) {
+		return fmt.Errorf("invalid topic name %#v", topic)
+	}
+	if (snPublish.QOS == 1 || snPublish.QOS == 2) && msgID == 0 {
+		return fmt.Errorf("invalid MsgID 0 in %v", snPublish)
 	}
 	if snPublish.QOS == 1 {
 		h.transactions.Store(msgID, newClientPublishQOS1Transaction(ctx, h, msgID, snPublish.TopicID))
@@ -615,6 +640,18 @@ func (h *handler1) handleConnect(ctx context.Context, snConnect *snPkts1.Connect
 }
 
 func (h *handler1) handleSubscribe(ctx context.Context, snSubscribe *snPkts1.Subscribe) error {
+	// The packet must be translatable to a valid MQTT SUBSCRIBE.
+	if snSubscribe.QOS > 2 || snSubscribe.MessageID() == 0 {
+		return fmt.Errorf("invalid QoS or MsgID in %v", snSubscribe)
+	}
+	if snSubscribe.TopicIDType == snPkts1.TIT_STRING && !isValidTopicFilter(snSubscribe.TopicName) {
+		return fmt.Errorf("invalid topic filter in %v", snSubscribe)
+	}
+	if snSubscribe.TopicIDType == snPkts1.TIT_SHORT &&
+		!isValidTopicFilter(snPkts.DecodeShortTopic(snSubscribe.TopicID)) {
+		return fmt.Errorf("invalid topic filter in %v", snSubscribe)
+	}
+
 	var topic string
 	// From MQTT-SN specification v. 1.2, chapter 5.4.16 SUBACK:
 	// 	TopicID [...] [is] not relevant in case of subscriptions to a short topic name or to a topic name which
@@ -680,6 +717,11 @@ func (h *handler1) handleUnsubscribe(snUnsubscribe *snPkts1.Unsubscribe) error {
 		}
 	case snPkts1.TIT_SHORT:
 		topic = snPkts.DecodeShortTopic(snUnsubscribe.TopicID)
+	}
+
+	// The packet must be translatable to a valid MQTT UNSUBSCRIBE.
+	if snUnsubscribe.MessageID() == 0 || !isValidTopicFilter(topic) {
+		return fmt.Errorf("invalid MsgID or topic filter in %v", snUnsubscribe)
 	}
 
 	mqUnsubscribe := mqPkts.NewControlPacket(mqPkts.Unsubscribe).(*mqPkts.UnsubscribePacket)
@@ -776,6 +818,12 @@ func (h *handler1) handleMqttSn(ctx context.Context, pkt snPkts.Packet) error {
 
 	// Client REGISTER transaction.
 	case *snPkts1.Register:
+		// A topic name (to publish to) must not contain wildcards.
+		if hasWildcard(snPkt.TopicName) {
+			m2 := snPkts1.NewRegack(0, snPkts1.RC_NOT_SUPPORTED)
+			m2.CopyMessageID(snPkt)
+			return h.snSend(m2)
+		}
 		returnCode := snPkts1.RC_ACCEPTED
 		topicID, err := h.registerTopic(snPkt.TopicName)
 		if err != nil {
@@ -801,6 +849,9 @@ func (h *handler1) handleMqttSn(ctx context.Context, pkt snPkts.Packet) error {
 
 	// Client PUBLISH QoS 2 transaction.
 	case *snPkts1.Pubrel:
+		if snPkt.MessageID() == 0 {
+			return fmt.Errorf("invalid MsgID 0 in %v", snPkt)
+		}
 		mqPubrel := mqPkts.NewControlPacket(mqPkts.Pubrel).(*mqPkts.PubrelPacket)
 		mqPubrel.MessageID = snPkt.MessageID()
 		return h.mqttSend(mqPubrel)
